@@ -87,17 +87,18 @@ class CombiningMarkWriter(RawWriter):
         """
         self.parent: RawWriter = parent
         """This writer's parent."""
-        self._marks: Set[str] = set()
+        # insertion-ordered, so that the order in which several active marks are written does not depend on string hashing
+        self._marks: Dict[str, None] = {}
         self.enabled: bool = True
         """Whether or not combining marks will be added."""
 
     def add(self, combining_mark: str):
         """Adds a combining mark to this writer."""
-        self._marks.add(combining_mark)
+        self._marks[combining_mark] = None
 
     def remove(self, combining_mark: str):
         """Removes a combining mark from this writer."""
-        self._marks.remove(combining_mark)
+        del self._marks[combining_mark]
 
     def context(self, *combining_marks: str) -> 'CombiningMarkContext':
         """Returns an ``__enter__`` -able context for interacting with this writer, with the given combining marks."""
@@ -106,7 +107,7 @@ class CombiningMarkWriter(RawWriter):
     @property
     def marks(self) -> Set[str]:
         """Returns the set of combining marks in this writer."""
-        return self._marks
+        return set(self._marks)
 
     @property
     def marks_str(self) -> str:
